@@ -87,15 +87,17 @@ impl RangeListTable {
                 // Note that we must ensure none of the ranges have both begin == 0 and end == 0.
                 // We do this by ensuring that begin != end, which is a bit more restrictive
                 // than required, but still seems reasonable.
+                // An entry whose first value is all ones is a base address selection
+                // entry in this format, so no range may begin there.
+                let marker = !0 >> (64 - address_size * 8);
                 match *range {
                     Range::BaseAddress { address } => {
-                        let marker = !0 >> (64 - address_size * 8);
                         w.write_udata(marker, address_size)?;
                         w.write_address(address, address_size)?;
                         have_base_address = true;
                     }
                     Range::OffsetPair { begin, end } => {
-                        if begin == end {
+                        if begin == end || begin == marker {
                             return Err(Error::InvalidRange);
                         }
                         if !have_base_address {
@@ -105,7 +107,7 @@ impl RangeListTable {
                         w.write_udata(end, address_size)?;
                     }
                     Range::StartEnd { begin, end } => {
-                        if begin == end {
+                        if begin == end || begin == Address::Constant(marker) {
                             return Err(Error::InvalidRange);
                         }
                         if have_base_address {
@@ -116,13 +118,15 @@ impl RangeListTable {
                     }
                     Range::StartLength { begin, length } => {
                         let end = match begin {
-                            Address::Constant(begin) => Address::Constant(begin + length),
+                            Address::Constant(begin) => Address::Constant(
+                                begin.checked_add(length).ok_or(Error::InvalidRange)?,
+                            ),
                             Address::Symbol { symbol, addend } => Address::Symbol {
                                 symbol,
-                                addend: addend + length as i64,
+                                addend: addend.wrapping_add(length as i64),
                             },
                         };
-                        if begin == end {
+                        if begin == end || begin == Address::Constant(marker) {
                             return Err(Error::InvalidRange);
                         }
                         if have_base_address {
